@@ -203,6 +203,9 @@ def run(ck, prog, tier, load):
             h2_ok, w2 = covered(b, ho)
         ck.ob("C11-e.head-field", f, h1_ok and h2_ok, h1dec, None,
               "RequestHead.%s is not reset by clear(); it is overwritten on every path to the hand-off by the h1 request path (%s: %s) and by the h2 request path (%s) — a conditional write leaves the previous request's value in a recycled head" % (f, where1, h1_ok, h2_ok))
+    # scoped application data of an earlier request: the container stack discipline (shared with C09-e)
+    from .c09 import data_stack_rules
+    data_stack_rules(ck, prog, "C11-f")
 
 
 def last_field_of_stmt(s):
